@@ -187,6 +187,7 @@ type FuncVerifier struct {
 	globalReads    map[string]bool
 	yieldVar       *types.Var
 	nondet         []string // sources of nondeterminism met while executing (for `functional`)
+	panicStates    []panicExit // exceptional exits met while executing (see forkPanic)
 	curState       *State
 	localOnly      map[types.Object]bool
 	allocTerms     map[string]bool
@@ -1200,6 +1201,13 @@ func isContentObject(t types.Type) bool {
 	}
 	full := n.Obj().Pkg().Path() + "." + n.Obj().Name()
 	return full == "strings.Builder" || full == "bytes.Buffer"
+}
+
+// panicExit: a point where called code may panic instead of returning (state after the callee's effects).
+type panicExit struct {
+	st   *State
+	why  string
+	site token.Pos
 }
 
 const contentKey = "$content"
